@@ -6,9 +6,10 @@
    line splitting for the three terminator styles, the line-number shift, the comment cut on
    quote-free statements, and case-invariance of EVERY pattern compiled with flag I (generic
    over the regex engine; the pattern table is regenerated from the source on every run).
-   Continuation gathering, `;` splitting and what the readers do with the text are covered by the
-   metamorphic oracle of harness/props/c13.py only.  Strength: partial. *)
+   Continuation gathering (C13/Cont.v) and `;` splitting (C13/Semi.v) are modelled and proved as well; what the
+   readers do with the text is covered by the metamorphic oracle of harness/props/c13.py only.  Strength: partial. *)
 From Coq Require Import String.
+From FV Require C13.Semi.
 From FV Require Import Base.Str Base.Lines Base.LinesFacts Base.Regex Base.RegexFacts Gen.GenRegex C13.Model C13.Proofs C13.Cont.
 
 (* LF, CRLF and CR renderings of the same lines are split into the same lines *)
@@ -93,3 +94,27 @@ Example C13_nonvacuous :
   nth_error (insert_blank ls 2 3) (shift 2 3 3) = Some (s2l "end").
 Proof. cbv zeta. repeat split; vm_compute; reflexivity. Qed.
 Print Assumptions C13_nonvacuous.
+
+(* joining statements with `;`: for every list of statements (every literal closed, no `;` or `!` outside literals -- inside
+   literals they are allowed) joined by semicolons, with or without a trailing comment, the statements handed on are the
+   statements themselves, the contents of their literals included *)
+Theorem semicolon_joined_statements_read_back ss t :
+  ss <> [] -> Forall (fun s => Semi.statement s = true) ss -> Semi.trailer t ->
+  Semi.statements (Semi.join_semi ss ++ t) = ss.
+Proof. exact (Semi.semicolon_round_trip ss t). Qed.
+Print Assumptions semicolon_joined_statements_read_back.
+
+(* the rule of the pinned revision (the copy with blanked literals is what gets split) loses the contents of literals *)
+Theorem C13_refuted_split_of_blanked_copy :
+  Forall (fun s => Semi.statement s = true) Semi.witness_statements /\
+  Semi.join_semi Semi.witness_statements = Semi.witness_line /\
+  Semi.statements_pinned Semi.witness_line <> Semi.witness_statements /\
+  Semi.statements Semi.witness_line = Semi.witness_statements.
+Proof. exact Semi.pinned_refuted. Qed.
+Print Assumptions C13_refuted_split_of_blanked_copy.
+
+Example semicolon_nonvacuous :
+  exists ss, length ss = 3 /\ Forall (fun s => Semi.statement s = true) ss /\
+             existsb (Semi.has Semi.SEMI) ss = true /\ existsb (Semi.has Semi.BANG) ss = true.
+Proof. exact Semi.semicolon_nonvacuous. Qed.
+Print Assumptions semicolon_nonvacuous.
